@@ -137,9 +137,26 @@ API_SOURCES = [
     # (finditer yields in breadth-first tree order, not in source order)
     "x(7000)\nx\n", "g(f(7000)).real + 2\nf(7001)\n", "a = [f(7000), [f(7001)]]\nf(7000)\n",
     "(7000 + 7001) * 2\n7000 + 7001\n", "def f(a):\n    return a + 7000\n\n\nreturn_ = 7001 + 7000\n",
+    # decorated definitions: at offset 0, after other code, indented, blank / parenthesis after the `@`
+    "@dec\nclass K:\n    x = 7000\n", "@ dec\ndef f(a):\n    return a + 7000\n", "@(dec)\ndef f(a):\n    return 7000\n",
+    "x = 7000\n@a.b(7001)\n@c\ndef f(a):\n    return 7000\n", "if c:\n    @dec\n    def f(a):\n        return 7000\n\n    @dec\n    class K:\n        pass\n",
+    "@dec\nasync def f(a):\n    return 7000\n",
 ]
 API_PATTERNS = ["x", "x = 7000", "x = {{v}}", "{{t}} = {{v}}", "f({{x}})", "{{a}} + {{b}}", "{{a}} + {{a}}", "{{t}} = {{v}}\n{{u}} = {{v}}",
-                "7000", "return {{x}}", "def {{f}}({{a}}):\n    {{...*}}", "{{x}} = {{v}}\n{{y}} = {{w}}\n{{x}} = {{z}}"]
+                "7000", "return {{x}}", "def {{f}}({{a}}):\n    {{...*}}", "{{x}} = {{v}}\n{{y}} = {{w}}\n{{x}} = {{z}}",
+                "@{{d}}\ndef {{f}}({{a}}):\n    {{...*}}", "@{{...+}}\ndef {{f}}({{a}}):\n    {{...*}}", "@{{d}}\nclass {{c}}:\n    {{...*}}",
+                "@{{d}}\nasync def {{f}}({{a}}):\n    {{...*}}"]
+
+
+def _deco_start(src, node):
+    """Offset of the `@` that opens the first decorator of a definition (the decorator expression itself may be
+    preceded by blanks or an opening parenthesis: `@ dec`, `@(dec)`)."""
+    d = min(node.decorator_list, key=lambda x: (x.lineno, x.col_offset))
+    p = L.charno(src, d.lineno, 0)
+    while src[p] in " \t":
+        p += 1
+    assert src[p] == "@", (src, p)
+    return p
 
 
 def _geometry_problems(src, matches, pm, check_cli=False):
@@ -152,8 +169,7 @@ def _geometry_problems(src, matches, pm, check_cli=False):
             s, e = L.charno(src, n.lineno, n.col_offset), L.charno(src, n.end_lineno, n.end_col_offset)
             segs.add((s, e))
             if getattr(n, "decorator_list", None):
-                d = min(n.decorator_list, key=lambda x: (x.lineno, x.col_offset))
-                segs.add((L.charno(src, d.lineno, d.col_offset) - 1, e))
+                segs.add((_deco_start(src, n), e))
     # statement sequences: from the start of one statement to the end of a later one in the same body
     for n in ast.walk(tree):
         for bn in ("body", "orelse", "finalbody"):
@@ -206,7 +222,7 @@ def ob_api(pattern, source):
         if tree.body:
             first = L.charno(source, tree.body[0].lineno, tree.body[0].col_offset)
             if getattr(tree.body[0], "decorator_list", None):
-                first = L.charno(source, tree.body[0].decorator_list[0].lineno, tree.body[0].decorator_list[0].col_offset) - 1
+                first = _deco_start(source, tree.body[0])
             last = L.charno(source, tree.body[-1].end_lineno, tree.body[-1].end_col_offset)
             if (ma is not None) != any(s == first for s, _e in spans):
                 probs.append("match() %s but matches start at %s (first statement at %d)" % (
@@ -361,7 +377,7 @@ def replay(case):
     if tree.body:
         first = L.charno(src, tree.body[0].lineno, tree.body[0].col_offset)
         if getattr(tree.body[0], "decorator_list", None):
-            first = L.charno(src, tree.body[0].decorator_list[0].lineno, tree.body[0].decorator_list[0].col_offset) - 1
+            first = _deco_start(src, tree.body[0])
         last = L.charno(src, tree.body[-1].end_lineno, tree.body[-1].end_col_offset)
         if (pm.match(pat, src) is not None) != any(s == first for s, _e in spans):
             probs.append("match() inconsistent with finditer starts %s (first statement at %d)" % ([s for s, _ in spans], first))
